@@ -154,6 +154,28 @@ func srRequeue() bool {
 	return srRequeueProbe == 1
 }
 
+var srExtProbe = -1
+
+// srExt reports whether computeSegmentRange has the cap extension of
+// fixes/C04-never-cut-inside-index-block.patch (the model has both versions).
+func srExt() bool {
+	if srExtProbe < 0 {
+		s3 := &srS3{MemoryS3Client: NewMemoryS3Client()}
+		l := NewPartitionLog("probe", "t", 0, 0, s3, nil, PartitionLogConfig{Buffer: WriteBufferConfig{MaxBytes: 1 << 30}, Segment: SegmentWriterConfig{IndexIntervalMessages: 3}}, nil, nil, nil)
+		for i := 0; i < 4; i++ {
+			b, _ := NewRecordBatchFromBytes(srPayload(srOp{Len: 61, Count: 1}, 0))
+			_, _ = l.AppendBatch(context.Background(), b)
+		}
+		_ = l.Flush(context.Background())
+		d, _ := l.Read(context.Background(), 1, 10)
+		srExtProbe = 0
+		if len(d) > 10 {
+			srExtProbe = 1
+		}
+	}
+	return srExtProbe == 1
+}
+
 func srEntries(es []*IndexEntry) string {
 	items := make([]string, len(es))
 	for i, e := range es {
@@ -594,6 +616,9 @@ func srRead(cs srCase, op srOp, res *srResult, main *PartitionLog, s3 *srS3, liv
 						key = "index-lookup-not-floor"
 					case floor >= 0 && entries[floor].Offset == live[i0].base && entries[floor].Offset < live[idx].base && int(op.Max) <= dist:
 						key = "sparse-index-entry-before-offset+maxbytes-le-distance"
+						if srExt() { // the tree has the cap extension: this must not happen any more
+							key = "sparse-index-no-progress-despite-cap-extension"
+						}
 					}
 				}
 				res.c04 = append(res.c04, srFail{"progress", key, fmt.Sprintf("%s returned %d bytes starting at base offset %d; the batch holding the offset [%d,%d] starts %d bytes later: the response holds only records before the fetch offset", desc, len(data), live[i0].base, live[idx].base, live[idx].last, dist)})
@@ -773,7 +798,7 @@ func srGen(r *vRand, focus string) srCase {
 }
 
 func srCoq(cs srCase, res *srResult) string {
-	return fmt.Sprintf("mkCase %s %s %s %s", cqZ(int64(cs.Interval)), cqBool(res.requeue), cqZ(cs.Start), cqList(res.steps))
+	return fmt.Sprintf("mkCase %s %s %s %s %s", cqZ(int64(cs.Interval)), cqBool(res.requeue), cqBool(srExt()), cqZ(cs.Start), cqList(res.steps))
 }
 
 func srApp(n int, lod int32, ln int, marker byte) []srOp {
@@ -904,7 +929,7 @@ func srTest(t *testing.T, prop string) {
 			rep.Cases(fmt.Sprintf("%s_%c", prop, 'a'+c), req, "case", "check_case", coq[c*per:hi], jsons[c*per:hi])
 		}
 	}
-	rep.Notes = append(rep.Notes, fmt.Sprintf("failed-flush handling observed on this tree: requeue=%v", srRequeue()))
+	rep.Notes = append(rep.Notes, fmt.Sprintf("observed on this tree: failed flush re-queues=%v, computeSegmentRange cap extension=%v", srRequeue(), srExt()))
 	rep.Write()
 	if len(rep.Failures) > 0 {
 		t.Logf("oracle failures: %s", strings.TrimSpace(rep.Failures[0].What))
